@@ -175,6 +175,11 @@ def _include_subclasses_with_union_strategy(
     if not parent_classes:
         return
 
+    # Hooks cached by earlier use of the converter were generated without the
+    # working set manipulation below; nested lookups must not pick them up.
+    converter._unstructure_func.clear_cache()
+    converter._structure_func.clear_cache()
+
     original_unstruct_hooks = {}
     original_struct_hooks = {}
     for cl in union_classes:
